@@ -6,6 +6,7 @@ same model function.)
 import EnumToolsModel.Lemmas.Index
 import EnumToolsModel.Lemmas.Examples
 import EnumToolsModel.Lemmas.TemplatesEq
+import EnumToolsModel.Lemmas.ReprTableEq
 namespace ET.Thm
 
 /-- every variant has a name in the specification -/
@@ -98,5 +99,10 @@ theorem C03_source (D : Derive) (tg : Target) (md : Modes) (h : D.WF) (ht : tg.W
   obtain ⟨n, hs, hn⟩ := C03_asStr D tg h ht md.asStr v hv
   exact ⟨n, hs, by rw [T.asStr_eq D tg md h hm v hv, hn], by rw [T.display_eq D tg md h hm v hv, hn],
     by rw [T.debug_eq D tg md h hm v hv, hn], by rw [T.intoStr_eq D tg md h hm v hv, hn]⟩
+
+/-- the index into the name table goes through `#repr_unsigned`: the companion type written in `parser/mod.rs` on this run is the unsigned type of the repr's own width -/
+theorem C03_repr_table_source (t : Target) :
+    (ET.Generated.reprArms.all (armAgrees t)) = true
+    ∧ (∀ r, (reprTable t r).isSome ↔ r ∈ ET.Generated.reprArms.map (·.1)) := repr_table_source t
 
 end ET.Thm
